@@ -410,8 +410,9 @@ type Inserted struct {
 func render(s Slot, tag, indent string) (ins string, norm string) {
 	switch s.Style {
 	case StInline:
+		// the leading blank keeps a preceding "/" from fusing with "/*" into "//"
 		c := "/* " + tag + " */"
-		return c + " ", c
+		return " " + c + " ", c
 	case StEOL:
 		c := "// " + tag
 		return " " + c, c
